@@ -602,6 +602,82 @@ pub fn huge_full_probes() -> Vec<String> {
     probs
 }
 
+/// C08 at extreme capacities: the double-ended exact-size protocol of every iterator kind over a zero-sized
+/// element, with the front within 3 of 0 and of N (position arithmetic beyond the machine word), 0..=4 elements,
+/// every sub-range and every script over {next, next_back} one step longer than the range.  Elements carry no
+/// identity here, so presence, `len()` and `size_hint()` are what is judged (and that nothing panics).
+pub fn huge_iter_probes() -> (Vec<String>, u64) {
+    use crate::act::Script;
+    fn drive<I: DoubleEndedIterator + ExactSizeIterator>(mut it: I, sc: Script, l: usize) -> Result<(), String> {
+        let mut left = l;
+        if it.len() != left || it.size_hint() != (left, Some(left)) {
+            return Err(format!("fresh iterator: len() {} size_hint {:?}, expected {}", it.len(), it.size_hint(), left));
+        }
+        for i in 0..sc.len as usize {
+            let y = if sc.back(i) { it.next_back().is_some() } else { it.next().is_some() };
+            if y != (left > 0) {
+                return Err(format!("step {} ({}): yielded {} with {} element(s) left", i, if sc.back(i) { "next_back" } else { "next" }, if y { "Some" } else { "None" }, left));
+            }
+            left = left.saturating_sub(1);
+            if it.len() != left || it.size_hint() != (left, Some(left)) {
+                return Err(format!("after step {}: len() {} size_hint {:?}, expected {}", i, it.len(), it.size_hint(), left));
+            }
+        }
+        Ok(())
+    }
+    fn at<const N: usize>(probs: &mut Vec<String>, cases: &mut u64) {
+        for prefix in prefixes() {
+            for m in 0..=4usize {
+                for src in 0..6u8 {
+                    let ranges: Vec<(usize, usize)> = if matches!(src, 2 | 3 | 4) { (0..=m).flat_map(|a| (a..=m).map(move |b| (a, b))).collect() } else { vec![(0, m)] };
+                    for (a, b) in ranges {
+                        let l = b - a;
+                        for sc in Script::all_up_to(l + 1) {
+                            *cases += 1;
+                            let r = catch_unwind(AssertUnwindSafe(|| -> Result<(), String> {
+                                let mut buf = CircularBuffer::<N, Z>::new();
+                                apply_prefix(&mut buf, prefix);
+                                for _ in 0..m {
+                                    buf.push_back(Z::new());
+                                }
+                                match src {
+                                    0 => drive(buf.iter(), sc, l),
+                                    1 => drive(buf.iter_mut(), sc, l),
+                                    2 => drive(buf.range(a..b), sc, l),
+                                    3 => drive(buf.range_mut(a..b), sc, l),
+                                    4 => {
+                                        drive(buf.drain(a..b), sc, l)?;
+                                        if buf.len() != m - l || buf.iter().count() != m - l {
+                                            return Err(format!("after the drain len() is {}, expected {}", buf.len(), m - l));
+                                        }
+                                        Ok(())
+                                    }
+                                    _ => drive(buf.into_iter(), sc, l),
+                                }
+                            }));
+                            let what = ["iter()", "iter_mut()", "range(a..b)", "range_mut(a..b)", "drain(a..b)", "into_iter()"][src as usize];
+                            let ctx = || format!("{}: capacity {}, front prefix {:?}, {} element(s), a..b = {}..{}, script {:?}", what, cap_name(N), prefix, m, a, b, (0..sc.len as usize).map(|i| if sc.back(i) { 'b' } else { 'f' }).collect::<String>());
+                            match r {
+                                Ok(Ok(())) => {}
+                                Ok(Err(e)) => probs.push(format!("{}: {}", ctx(), e)),
+                                Err(p) => probs.push(format!("{}: panicked: {}", ctx(), crate::panic_text(&p))),
+                            }
+                        }
+                    }
+                }
+            }
+        }
+    }
+    let mut probs = vec![];
+    let mut cases = 0u64;
+    at::<{ usize::MAX }>(&mut probs, &mut cases);
+    at::<{ usize::MAX - 1 }>(&mut probs, &mut cases);
+    at::<{ (1 << 63) + 1 }>(&mut probs, &mut cases);
+    at::<{ 1 << 63 }>(&mut probs, &mut cases);
+    at::<{ (1 << 32) + 1 }>(&mut probs, &mut cases);
+    (probs, cases)
+}
+
 pub fn c19_check(cap_idx: usize, o: &Opts, rep: &mut Report) {
     if cap_idx == 0 && o.shard.0 == 0 {
         let probs = huge_full_probes();
@@ -624,6 +700,13 @@ fn replay_one<const N: usize, const R: usize>(prefix: (u8, usize), seq: &[ZAct])
 }
 
 pub fn replay_c19(c: &Case) -> Result<i32, String> {
+    if c.act == "huge-iter" {
+        let (probs, _) = huge_iter_probes();
+        for p in probs.iter().take(20) {
+            println!("VIOLATION REPRODUCED: {}", p);
+        }
+        return Ok(if probs.is_empty() { 0 } else { 1 });
+    }
     if c.act == "huge-full" {
         let probs = huge_full_probes();
         for p in &probs {
